@@ -179,6 +179,11 @@ func runC18(t *testing.T, r *engine.Run) {
 	ttl := []time.Duration{10 * time.Second, 10 * time.Minute, 24 * time.Hour, 90 * 24 * time.Hour}[tp.Choose(4, "ttl")]
 	cache.VerifRand = func() (float64, int) { return float64(tp.Choose(1001, "jitterDraw")) / 1000, tp.Choose(2, "jitterSign") }
 	defer func() { cache.VerifRand = func() (float64, int) { return 0, 0 } }()
+	sched := engine.NewSched()
+	freeze := tp.Bool(1, 2, "freezeBeforeRegister")
+	sched.Filter = func(point, key string) bool { return freeze }
+	cache.VerifYieldHook = func(point string) { sched.Yield(point, "") }
+	defer func() { cache.VerifYieldHook = nil }()
 	ca := &simCA{decide: make(chan caDecision)}
 	ca.newRoot(0)
 	opts := &security.Options{
@@ -231,6 +236,8 @@ func runC18(t *testing.T, r *engine.Run) {
 	caErrPending := false // a signing failed: the next call must reach the CA again
 	callsAtFailure := 0
 	caErrDecisions, callerErrors := 0, 0
+	type pendingRootCheck struct{ cbFrom int }
+	var pendingRoot *pendingRootCheck
 	rootsCached := "" // mirrors which CA roots were last announced; "?" = unknown (a ROOTCA-triggered signing happened)
 
 	newEpoch := func(why string) {
@@ -318,8 +325,9 @@ func runC18(t *testing.T, r *engine.Run) {
 	processCallbacks := func(driverBundleUpdate bool) {
 		cbMu.Lock()
 		defer cbMu.Unlock()
-		for ; cbSeen < len(cbs); cbSeen++ {
+		for cbSeen < len(cbs) {
 			c := cbs[cbSeen]
+			cbSeen++
 			r.Logf("t=%v callback %s", c.at.Sub(t0), c.name)
 			if c.name == security.RootCertReqResourceName {
 				expectRootCB = false
@@ -359,7 +367,11 @@ func runC18(t *testing.T, r *engine.Run) {
 	maxSteps := 10 + tp.Choose(50, "maxsteps")
 	rootN := 0
 	for r.Steps = 0; r.Steps < maxSteps && !r.Failed() && !tp.Exhausted(); r.Steps++ {
-		time.Sleep(time.Duration(1+2*tp.Choose(500, "tick")) * time.Millisecond) // distinct virtual instants
+		tick := time.Duration(1+2*tp.Choose(500, "tick")) * time.Millisecond // distinct virtual instants
+		if len(sched.Parked()) > 0 {
+			tick = tick%(10*time.Millisecond) + time.Millisecond // a frozen caller is ordered, not aged
+		}
+		time.Sleep(tick)
 		synctest.Wait()
 		processCallbacks(false)
 		if r.Failed() {
@@ -375,10 +387,22 @@ func runC18(t *testing.T, r *engine.Run) {
 		if parkedCA {
 			acts = append(acts, "ca:ok", "ca:ok", "ca:ok", "ca:err", "ca:short_ttl")
 		}
-		acts = append(acts, "advance", "advance", "bundle", "ca:root_change")
+		acts = append(acts, "bundle", "ca:root_change")
+		if len(sched.Parked()) == 0 {
+			// no time jumps while a caller is frozen between signing and caching: a stall of hours at that point
+			// legitimately serves an old certificate; the freeze point is there to order callers, not to age them
+			acts = append(acts, "advance", "advance")
+		}
+		for _, k := range sched.Parked() {
+			acts = append(acts, "release:"+k, "release:"+k, "release:"+k)
+		}
 		a := acts[tp.Choose(len(acts), "act")]
 		tp.Note(a)
 		bundleUpdate := false
+		if strings.HasPrefix(a, "release:") {
+			sched.Release(a[len("release:"):])
+			r.Probe("released_before_register")
+		}
 		switch a {
 		case "call:default", "call:ROOTCA":
 			res := security.WorkloadKeyCertResourceName
@@ -411,11 +435,11 @@ func runC18(t *testing.T, r *engine.Run) {
 				caErrPending = true
 				callsAtFailure = ca.calls
 			case "ca:short_ttl":
-				d.ttl = []time.Duration{2 * time.Second, 30 * time.Second}[tp.Choose(2, "short")]
+				d.ttl = []time.Duration{30 * time.Second, 2 * time.Minute}[tp.Choose(2, "short")]
 				r.Fault("ca_short_ttl")
 			}
 			before := len(ca.issued)
-			rootsBefore := lastDefaultRoots
+			_ = lastDefaultRoots
 			allDefault := true
 			for _, c := range calls {
 				if !c.done && c.resource != security.WorkloadKeyCertResourceName {
@@ -426,29 +450,6 @@ func runC18(t *testing.T, r *engine.Run) {
 			ca.decide <- d
 			synctest.Wait()
 			if len(ca.issued) > before {
-				served := strings.Join(ca.issued[len(ca.issued)-1].roots, "")
-				if !allDefault {
-					rootsCached = "?"
-				} else {
-					if rootsCached != "?" && rootsCached != served {
-						announced := false
-						cbMu.Lock()
-						for _, c := range cbs[cbBefore:] {
-							if c.name == security.RootCertReqResourceName {
-								announced = true
-							}
-						}
-						cbMu.Unlock()
-						if !announced {
-							r.Fail("c18.root_change_not_announced", "", "a signing returned a root bundle that differs from the previously cached one but no ROOTCA callback was sent")
-							break
-						}
-						r.Probe("root_change_announced")
-					}
-					rootsCached = served
-				}
-			}
-			if len(ca.issued) > before {
 				epochSuccesses++
 				caErrPending = false
 				if epochSuccesses == 1 {
@@ -458,7 +459,16 @@ func runC18(t *testing.T, r *engine.Run) {
 					r.Fail("c18.second_signing_in_one_epoch", "", "a second certificate was signed although the first one of this epoch (serial %d) was never rotated or invalidated", ca.issued[before-1].serial)
 					break
 				}
-				_ = rootsBefore
+				served := strings.Join(ca.issued[len(ca.issued)-1].roots, "")
+				if !allDefault {
+					rootsCached = "?"
+				} else {
+					if rootsCached != "?" && rootsCached != served {
+						// evaluated once the signing caller has run to completion (it may be frozen before caching)
+						pendingRoot = &pendingRootCheck{cbFrom: cbBefore}
+					}
+					rootsCached = served
+				}
 			}
 			r.Logf("t=%v CA decides %s (calls=%d issued=%d)", time.Since(t0), a, ca.calls, len(ca.issued))
 		case "ca:root_change":
@@ -476,7 +486,12 @@ func runC18(t *testing.T, r *engine.Run) {
 			_ = sc.UpdateConfigTrustBundle(configBundle)
 			bundleUpdate = len(cbs) > before
 			if bundleUpdate {
+				keep, keepN := epochIssued, epochSuccesses
 				newEpoch("UpdateConfigTrustBundle")
+				if len(sched.Parked()) > 0 && keepN == 1 {
+					// a signed certificate is about to be cached by the frozen caller: it becomes this epoch's certificate
+					epochIssued, epochSuccesses = keep, keepN
+				}
 			}
 			if parkedCA {
 				r.Probe("bundle_update_while_csr_in_flight")
@@ -505,6 +520,22 @@ func runC18(t *testing.T, r *engine.Run) {
 		// returns first: a certificate whose rotation delay is zero is rotated in the very step that issued it
 		processReturns()
 		processCallbacks(bundleUpdate)
+		if pendingRoot != nil && len(sched.Parked()) == 0 && !r.Failed() {
+			announced := false
+			cbMu.Lock()
+			for _, c := range cbs[pendingRoot.cbFrom:] {
+				if c.name == security.RootCertReqResourceName {
+					announced = true
+				}
+			}
+			cbMu.Unlock()
+			if !announced {
+				r.Fail("c18.root_change_not_announced", "", "a signing returned a root bundle that differs from the previously cached one but no ROOTCA callback was sent")
+			} else {
+				r.Probe("root_change_announced")
+			}
+			pendingRoot = nil
+		}
 		ca.mu.Lock()
 		if ca.maxInfl > 1 {
 			r.Fail("c18.concurrent_signing_requests", "", "%d CSRSign calls were in flight at the same time", ca.maxInfl)
@@ -513,6 +544,10 @@ func runC18(t *testing.T, r *engine.Run) {
 		checkOverdue()
 	}
 	// faults stop: every parked CSR succeeds; a caller obtains a valid pair within one CA round trip
+	sched.Drain()
+	synctest.Wait()
+	processReturns()
+	processCallbacks(false)
 	for i := 0; i < 20 && !r.Failed(); i++ {
 		ca.mu.Lock()
 		parked := ca.inflight > 0
